@@ -194,6 +194,62 @@ example : dateTimeToTextC false (some 330) false true ⟨⟨2020, 1, 1⟩, ⟨0,
 example : inYears (shiftWall ⟨2020, 1, 1⟩ ⟨0, 30, 0, 5⟩ (-60)).1 = true := by decide +kernel
 example : astimezone false ⟨⟨1, 1, 1⟩, ⟨0, 0, 0, 0⟩, some 60⟩ 0 = .crash "OverflowError" := by decide +kernel
 
+/-! ### `dt_format` / `date_format` over the directives `%Y %m %d %H %M %S` -/
+
+/-- `DateTime(dt_format=fmt)` for every well-formed format that names all six fields: what `strftime` writes for
+    any valid datetime is read back by `strptime` as the same wall clock to the second (microseconds and offset
+    are not written by these directives).  Years below 1000 need the zero-padded `%Y` (`facts08x.oldYearPad`). -/
+theorem dt_format_roundtrip (fmt : Fmt) (hwf : fmt.wf = true)
+    (hall : fmt.hasAll [.Y, .m, .d, .H, .M, .S] = true) (x : DateTime) (hx : x.valid = true)
+    (hpad : facts08x.oldYearPad = .zero ∨ 1000 ≤ x.date.y) :
+    dateTimeFromTextFmt facts08x fmt none (renderFmt facts08x (fieldsOf x.date x.time) fmt) =
+      .ok ⟨x.date, ⟨x.time.h, x.time.mi, x.time.s, 0⟩, none⟩ :=
+  dateTimeFromTextFmt_render facts08x fmt hwf hall x hx hpad
+
+/-- `DateTime(dt_format=fmt, as_timezone=o)`: an aware value is converted to the zone (same instant), written, and
+    read back with the zone put on again — the same instant to the second.  Needs the `as_timezone` branch of
+    `_datetime_from_unicode` to do what its documentation says (`facts08x.fmtAsTz = .replace`). -/
+theorem dt_format_as_timezone_roundtrip (hF : facts08x.fmtAsTz = .replace) (fmt : Fmt) (hwf : fmt.wf = true)
+    (hall : fmt.hasAll [.Y, .m, .d, .H, .M, .S] = true) (same : Bool) (x x1 : DateTime) (o : Int) (text : Text)
+    (hx : x.valid = true) (ho1 : -1440 < o) (ho2 : o < 1440) (hsame : same = true → x.tz = some o)
+    (hconv : astimezone same x o = .ok x1)
+    (hpad : facts08x.oldYearPad = .zero ∨ 1000 ≤ x1.date.y) :
+    dateTimeFromTextFmt facts08x fmt (some o) (renderFmt facts08x (fieldsOf x1.date x1.time) fmt) =
+      .ok ⟨x1.date, ⟨x1.time.h, x1.time.mi, x1.time.s, 0⟩, some o⟩ ∧ instant x1 = instant x ∧ x1.tz = some o := by
+  obtain ⟨hi, htz, hv⟩ := astimezone_ok same x o x1 hx ho1 ho2 hsame hconv
+  exact ⟨dateTimeFromTextFmt_render_astz facts08x hF fmt hwf hall x1 o hv hpad, hi, htz⟩
+
+/-- `Date(date_format=fmt)` for every well-formed format naming year, month and day -/
+theorem date_format_roundtrip (fmt : Fmt) (hwf : fmt.wf = true) (hall : fmt.hasAll [.Y, .m, .d] = true)
+    (x : Date) (hx : x.valid = true) (hpad : facts08x.oldYearPad = .zero ∨ 1000 ≤ x.y) :
+    dateFromTextFmt facts08 fmt (dateToTextFmt facts08x false fmt x) = .ok x :=
+  dateFromTextFmt_render facts08x facts08 fmt hwf hall x hx hpad
+
+/-- Soap11/Soap12 read dates in ISO form only; provided they also write them so (`facts08x.soapDateIso`),
+    a `date_format` does not get in the way -/
+theorem date_format_soap_roundtrip (hS : facts08x.soapDateIso = true) (fmt : Fmt) (x : Date) (hx : x.valid = true) :
+    dateFromText facts08 (dateToTextFmt facts08x true fmt x) = .ok x := by
+  simp only [dateToTextFmt, hS, Bool.and_self, if_true]
+  exact dateFromText_isoDate facts08 x hx
+
+/-- text that does not match the format is never anything but an error of the documented kind -/
+theorem dt_format_mismatch (fmt : Fmt) (asTz : Option Int) (s : Text) (h : strptimeFmt fmt s {} = none) :
+    dateTimeFromTextFmt facts08x fmt asTz s = fmtError facts08x := by
+  simp [dateTimeFromTextFmt, h]
+
+/-- every textual `serialize_as` form of Uuid (`None`, `'hex'`, `'urn'`) survives -/
+theorem uuid_serialize_as_roundtrip (form : UuidForm) (bs : List Nat) (hl : bs.length = 16) (h : bytesOk bs) :
+    uuidFromText (uuidToTextAs form bs) = .ok bs :=
+  uuidFromText_uuidToTextAs form bs hl h
+
+example : Fmt.wf [.dir .d, .lit '.', .dir .m, .lit '.', .dir .Y, .lit ' ', .dir .H, .lit 'h', .dir .M, .lit ':', .dir .S] = true := by
+  decide
+example : renderFmt facts08x ⟨2020, 1, 2, 3, 4, 5⟩ [.dir .d, .lit '.', .dir .m, .lit '.', .dir .Y, .lit ' ', .dir .H, .lit 'h', .dir .M, .lit ':', .dir .S] =
+    "02.01.2020 03h04:05".toList := by decide
+example : strptimeFmt [.dir .d, .lit '.', .dir .m, .lit '.', .dir .Y] " 2.1.2020".toList {} = some ⟨2020, 1, 2, 0, 0, 0⟩ := by
+  decide +kernel
+example : strptimeFmt [.dir .Y, .lit '-', .dir .m] "2020-13".toList {} = none := by decide +kernel
+
 /-! ### Double: the wrapper around CPython's `repr(float)` / `float(str)` -/
 
 /-- PARTIAL by design (DESIGN §4 C08, Float note a): CPython's shortest-repr and its parser are assumed, as
